@@ -557,6 +557,40 @@ impl Policy {
                 r
             }
             Policy::Random { rng, stick, burst } => {
+                // a helper about to offer its replacement (compare-exchange on the reader's control
+                // word): let it go while some reader has its generation published and has not yet
+                // confirmed; otherwise hold it back for a while, so that readers come and go
+                let offering: Vec<usize> = ids
+                    .iter()
+                    .copied()
+                    .filter(|t| {
+                        let s = &parked[t].site;
+                        s.contains("Slots::help#4") || s.contains("Slots::help#5") || s.contains("Slots::help#6") || s.contains("Slots::help#7")
+                    })
+                    .collect();
+                if !offering.is_empty() {
+                    let in_window = ids.iter().any(|t| {
+                        let s = &parked[t].site;
+                        !offering.contains(t) && (s.contains("fallback#0") || s.contains("Slots::confirm#0") || s.contains("Slots::confirm#1"))
+                    });
+                    if in_window && rng.chance(7, 8) {
+                        *burst = None;
+                        let t = offering[rng.range(0, offering.len())];
+                        return Some((t, false));
+                    }
+                    if !in_window && ids.len() > offering.len() && rng.chance(3, 4) {
+                        let rest: Vec<usize> = ids.iter().copied().filter(|t| !offering.contains(t)).collect();
+                        let t = match burst {
+                            Some((bt, left)) if *left > 0 && rest.contains(bt) => {
+                                *left -= 1;
+                                *bt
+                            }
+                            _ => rest[rng.range(0, rest.len())],
+                        };
+                        let spur = parked[&t].weak_cas && rng.chance(1, 10);
+                        return Some((t, spur));
+                    }
+                }
                 if let Some((bt, left)) = burst {
                     if *left > 0 && parked.contains_key(bt) {
                         *left -= 1;
@@ -1442,7 +1476,23 @@ where
         CV.notify_all();
     }
     if hung {
-        violation(format!("hang: execution did not finish within {} steps / 60 s", cfg.max_steps));
+        // who is stuck where: an unfinished load with more steps of its own than its bound is not
+        // wait-free, whatever else is going on
+        let apis_now = lock(&apis).clone();
+        let own: HashMap<usize, usize> = lock(&CTL).as_ref().map(|c| c.api_steps.clone()).unwrap_or_default();
+        let mut stuck: Vec<String> = vec![];
+        for (w, api) in apis_now.iter() {
+            if api.is_empty() {
+                continue;
+            }
+            let n = own.get(w).copied().unwrap_or(0);
+            stuck.push(format!("t{} in `{}` after {} steps of its own", w, api, n));
+            if (api.starts_with("load ") || api.starts_with("loadfull ")) && n > cfg.load_bound {
+                violation(format!("wait-freedom: {} by t{} has not finished after {} steps of its own (bound {})", api, w, n, cfg.load_bound));
+            }
+        }
+        stuck.sort();
+        violation(format!("hang: execution did not finish within {} steps / 60 s ({})", cfg.max_steps, stuck.join("; ")));
         // let everything run free so that the threads can end; they are not joined
         lock(&CTL).as_mut().unwrap().active = false;
         CV.notify_all();
